@@ -168,6 +168,12 @@ func (p *provider) CreateScope(ctx context.Context) (Scope, error) {
 
 	// Track scope
 	p.scopesMu.Lock()
+	if p.scopes == nil {
+		// Provider was closed while the scope was being created
+		p.scopesMu.Unlock()
+		_ = s.Close()
+		return nil, ErrProviderDisposed
+	}
 	p.scopes[s] = struct{}{}
 	p.scopesMu.Unlock()
 
